@@ -10,6 +10,8 @@
 -/
 import Buidl.Proofs.Merkle
 import Buidl.Proofs.Pow
+import Buidl.Proofs.Wire
+import Buidl.Spec.Wire
 namespace Buidl.Props.C17
 open Buidl Buidl.Merkle Buidl.Spec.Merkle Buidl.Wire
 
@@ -105,6 +107,58 @@ theorem populate_never_out_of_fuel (H : Bytes → Bytes) (total : Nat) (flagBits
   cases extractProof H total flagBits hashes with
   | none => simp
   | some p => simp
+
+/-- one MerkleTree object used again: on a fresh tree `populate_tree` is `populate` … -/
+theorem tree_reuse_fresh (H : Bytes → Bytes) (total : Nat) (flagBits : List Bool) (hashes : List Bytes) :
+    (populateOn H (newTree total) flagBits hashes).2 = populate H total flagBits hashes :=
+  populateOn_newTree H total flagBits hashes (populate_never_out_of_fuel H total flagBits hashes)
+
+/-- … and on a tree whose root is already known it runs no iteration: it raises unless it is given no hash and no
+    set flag bit, and leaves the tree — root and `proved_txs` — as it was (no stale or doubled results) -/
+theorem tree_reuse_finished (H : Bytes → Bytes) (t : TreeSt) (r : Bytes) (flagBits : List Bool) (hashes : List Bytes)
+    (hroot : t.get 0 0 = some (some r)) :
+    populateOn H t flagBits hashes = ({ t with flagBits := flagBits, hashes := hashes },
+      if hashes.length ≠ 0 then .error else if flagBits.any id then .error else .done r t.proved) :=
+  populateOn_finished H t r flagBits hashes hroot
+
+/-- bytes_to_bit_field inverts bit_field_to_bytes (flag bits are stored least significant bit first) -/
+theorem bit_field_roundtrip (bits : List Bool) (bs : Bytes) (h : bitFieldToBytes bits = some bs) :
+    bytesToBitField bs = bits :=
+  bytesToBitField_bitFieldToBytes bits bs h
+
+/-- the `merkleblock` message: MerkleBlock.parse inverts the protocol encoding (80-byte header, 4-byte count,
+    CompactSize + 32-byte hashes in wire order, var-bytes flags), with any continuation -/
+theorem merkleblock_parse_encode (hdr : Bytes) (total : Nat) (hashes : List Bytes) (flags rest e : Bytes)
+    (hhdr : hdr.length = 80) (hh : ∀ x ∈ hashes, x.length = 32)
+    (he : Spec.Wire.encodeMerkleBlock hdr total hashes flags = some e) :
+    merkleBlockParse (e ++ rest) = some (((Header.parse hdr).1, total, hashes, flags), rest) := by
+  simp only [Spec.Wire.encodeMerkleBlock, Option.pure_def, Option.bind_eq_bind] at he
+  cases ht : natToLE total 4 with
+  | none => rw [ht] at he; cases he
+  | some t =>
+    cases hv : encodeVarint hashes.length with
+    | none => rw [ht, hv] at he; cases he
+    | some v =>
+      cases hf : encodeVarstr flags with
+      | none => rw [ht, hv, hf] at he; cases he
+      | some f =>
+        rw [ht, hv, hf] at he
+        simp only [Option.bind_some, Option.some.injEq] at he
+        subst he
+        have htl : t.length = 4 := natToLE_length ht
+        have htv : leToNat t = total := leToNat_of_natToLE ht
+        unfold encodeVarstr at hf
+        cases hfl : encodeVarint flags.length with
+        | none => rw [hfl] at hf; cases hf
+        | some fl =>
+          rw [hfl] at hf
+          simp only [Option.map_some, Option.some.injEq] at hf
+          subst hf
+          simp only [merkleBlockParse, List.append_assoc, Header.parse_append _ _ hhdr,
+            take_append_len _ _ 4 htl, drop_append_len _ _ 4 htl, htv,
+            readVarint_encodeVarint _ _ _ hv, readN32rev_flatten hashes _ hh,
+            readVarint_encodeVarint _ _ _ hfl, Option.pure_def, Option.bind_eq_bind, Option.bind_some,
+            take_append_len _ _ _ rfl, drop_append_len _ _ _ rfl]
 
 /-- COMPLETENESS: for every non-empty block and every match set, the partial Merkle tree built per BIP37
     validates against the block's Merkle root and yields exactly the matched ids, in block order -/
